@@ -169,44 +169,44 @@ def run(ctx, ck) -> None:
     for i, p in enumerate(body_paths):
         if p.exit not in ('fall', 'continue'):
             continue
-        has_splice = False
-        val: tuple = ('i', 0)  # cursor = i + b, or ('c', value)
-        nonpos = False  # constraint i <= 0 known
-        feasible = True
-        rule_loop_left = None
-        for ev in p.events:
-            if ev[0] == 'stmt':
-                st = ev[1]
-                if isinstance(st, ast.Assign) and isinstance(st.targets[0], ast.Subscript) and isinstance(st.targets[0].value, ast.Name) and st.targets[0].value.id == seq[1]:
-                    has_splice = True
-                if isinstance(st, ast.Assign) and isinstance(st.targets[0], ast.Name) and st.targets[0].id == cur:
-                    v = term(st.value)
-                    if v[0] == 'const' and v[1].lstrip('-').isdigit():
-                        val = ('c', int(v[1]))
-                    else:
-                        val = ('?', show(v))
-                if isinstance(st, ast.AugAssign) and isinstance(st.target, ast.Name) and st.target.id == cur:
-                    d = term(st.value)
-                    if d[0] == 'const' and d[1].isdigit() and isinstance(st.op, (ast.Add, ast.Sub)):
-                        k = int(d[1]) * (1 if isinstance(st.op, ast.Add) else -1)
-                        val = (val[0], val[1] + k) if val[0] in ('i', 'c') else val
-                    else:
-                        val = ('?', 'augmented by ' + show(d))
-            elif ev[0] == 'cond':
-                t = term(ev[1])
-                if t == ('cmp', 'gt', ('var', cur), ('const', '0')):
-                    if val[0] == 'c':
-                        if (val[1] > 0) != ev[2]:
-                            feasible = False
-                    elif val == ('i', 0) and not ev[2]:
-                        nonpos = True
-        if not feasible:
+        has_splice = any(ev[0] == 'stmt' and isinstance(ev[1], ast.Assign) and isinstance(ev[1].targets[0], ast.Subscript) and isinstance(ev[1].targets[0].value, ast.Name)
+                         and ev[1].targets[0].value.id == seq[1] for ev in p.events)
+        # the cursor after this path as a function of the cursor before it: decided by evaluating the path for the
+        # cursor values 0..6 (the updates only add constants, compare with constants and take max/min)
+        from ..terms import NotEvaluable, eval_term
+
+        CUR = ('var', cur)
+        outcomes: dict[int, int] = {}
+        unknown = None
+        for i0 in range(0, 7):
+            env_c: dict = {}
+            feasible = True
+            for ev in p.events:
+                if ev[0] == 'cond':
+                    t = term(ev[1], env_c)
+                    try:
+                        v = eval_term(t, {CUR: i0})
+                    except NotEvaluable:
+                        continue  # a condition on something else than the cursor
+                    if bool(v) != ev[2]:
+                        feasible = False
+                        break
+                else:
+                    env_c = path_env(Path([ev]), env_c)
+            if not feasible:
+                continue
+            try:
+                outcomes[i0] = eval_term(env_c.get(cur, CUR), {CUR: i0})
+            except NotEvaluable as exc:
+                unknown = str(exc)
+        if not outcomes and unknown is None:
             continue
+        shown = ', '.join(f'{a}->{b}' for a, b in sorted(outcomes.items())) if unknown is None else f'not evaluable ({unknown})'
         if has_splice:
             nrewrite += 1
-            ok = (val[0] == 'c' and val[1] == 0) or (val[0] == 'i' and val[1] <= -1) or (val == ('i', 0) and nonpos)
-            ck.expect('N2', ok, loop, f'after a rewrite the cursor becomes {_show_cursor(val, nonpos)}: the pair to the left of the new operators is re-examined',
-                      f'after a rewrite the cursor becomes {_show_cursor(val, nonpos)}: the pair formed with the operator on the left of the rewrite is never examined, so a reducible pair can remain', instance=f'rewrite path {nrewrite}')
+            ok = unknown is None and all(0 <= new <= max(old - 1, 0) for old, new in outcomes.items())
+            ck.expect('N2', ok, loop, f'after a rewrite the cursor steps back (or restarts): {shown}: the pair to the left of the new operators is re-examined',
+                      f'after a rewrite the cursor moves as {shown}: the pair formed with the operator on the left of the rewrite is never examined, so a reducible pair can remain', instance=f'rewrite path {nrewrite}')
             # the rewrite must leave the rule loop (break): no further rule is tried on the stale pair
             after = False
             tried_after = False
@@ -218,8 +218,8 @@ def run(ctx, ck) -> None:
             ck.expect('N2', not tried_after, loop, 'the rule loop is left right after the rewrite', 'another rule is tried on the stale (left, right) pair after a rewrite', instance=f'rewrite path {nrewrite} leaves rule loop', nontrivial=False)
         else:
             nadvance += 1
-            ck.expect('N2', val == ('i', 1), loop, 'no rule applied: the cursor advances by exactly one',
-                      f'when no rule applies the cursor becomes {_show_cursor(val, nonpos)} instead of cursor+1 (pairs are skipped or the scan does not progress)', instance=f'advance path {nadvance}')
+            ck.expect('N2', unknown is None and all(new == old + 1 for old, new in outcomes.items()), loop, 'no rule applied: the cursor advances by exactly one',
+                      f'when no rule applies the cursor moves as {shown} instead of cursor+1 (pairs are skipped or the scan does not progress)', instance=f'advance path {nadvance}')
     ck.floor('N2', nrewrite, 2, 'rewrite paths of one scan iteration')
     ck.floor('N2', nadvance, 1, 'advance paths of one scan iteration')
 
@@ -269,9 +269,16 @@ def run(ctx, ck) -> None:
             nunchanged += 1
             from ..terms import atom_facts as _af
 
+            # names that are plain aliases of other names (x = y, assigned once) are read through
+            alias_env = {}
+            for st in ast.walk(hfn):
+                if isinstance(st, ast.Assign) and len(st.targets) == 1 and isinstance(st.targets[0], ast.Name) and isinstance(st.value, ast.Name):
+                    tname = st.targets[0].id
+                    if sum(1 for n in ast.walk(hfn) if isinstance(n, ast.Name) and n.id == tname and isinstance(n.ctx, ast.Store)) == 1:
+                        alias_env[tname] = ('var', st.value.id)
             fs = set()
             for e, q in p.conds():
-                fs |= _af(e, q, {})
+                fs |= _af(e, q, alias_env)
             few = ('lt', ('call', ('var', 'len'), (('var', ops_name),), ()), ('const', '2')) in fs or ('le', ('call', ('var', 'len'), (('var', ops_name),), ()), ('const', '1')) in fs
             counted = any(f[0] == 'eq' and count_v in f[1] and any(x in (('const', '0'), ('const', '1')) for x in f[1]) for f in fs)
             # `not scalars`: the list of scalar operands is empty
